@@ -300,11 +300,16 @@ func (e *Explorer) exploreSubtree(id int, fn *ssa.Function, solver *Solver, item
 	}
 }
 
+var notesDebug = os.Getenv("GOSYM_NOTES") != ""
+
 func (e *Explorer) newMachine(solver *Solver, covers map[string]bool) *Machine {
 	m := &Machine{Program: e.P, solver: solver}
 	m.globals = map[*ssa.Global]*Value{}
 	m.initDone = map[*ssa.Package]bool{}
 	m.maxSteps = 20_000_000
+	if v, ok := e.params["maxsteps"]; ok {
+		m.maxSteps = v
+	}
 	m.maxUnwind = 400
 	if v, ok := e.params["unwind"]; ok {
 		m.maxUnwind = v
@@ -355,6 +360,9 @@ func (e *Explorer) merge(m *Machine) {
 	defer e.mu.Unlock()
 	r := e.res
 	r.Executions++
+	if notesDebug {
+		fmt.Println("NOTE:", m.note)
+	}
 	r.Steps += int64(m.steps)
 	r.Asserts += int64(m.assertsChecked)
 	if m.pathDead {
